@@ -157,7 +157,7 @@ func (fc *FnCtx) generateOnce(res *FuncResult) *Frame {
 						}
 					}
 				}
-				for k, e := range append(append([]Clause(nil), spec.Ensures...), spec.EnsuresLocal...) {
+				for k, e := range append(append([]Clause(nil), spec.EnsuresLocal...), spec.Ensures...) {
 					t, err := fc.evalGoal(penv, e)
 					if err != nil {
 						res.Mismatch = append(res.Mismatch, fmt.Sprintf("ensures %d: %v", k+1, err))
@@ -171,7 +171,7 @@ func (fc *FnCtx) generateOnce(res *FuncResult) *Frame {
 				}
 			}
 		}
-		for k, e := range append(append([]Clause(nil), spec.Ensures...), spec.EnsuresLocal...) {
+		for k, e := range append(append([]Clause(nil), spec.EnsuresLocal...), spec.Ensures...) {
 			if spec.Flags["splitreturns"] != "" && len(fr.rets) > 1 {
 				break
 			}
